@@ -1,18 +1,19 @@
 SPECIFICATION Spec
 VIEW view
 CONSTANTS
-  Uris = {"u1"}
-  Texts = {"t1","t2"}
+  Uris = {"u1","u2"}
+  Texts = {"t1"}
   MaxMsgs = 3
-  MsgKinds = {"open","change","close"}
+  MsgKinds = {"open","close","rename"}
   MaxCfg = 0
   MaxDisk = 0
-  OnDisk = {}
+  OnDisk = {"u1"}
   InlineOpen = TRUE
   InlineChange = TRUE
   InlineClose = TRUE
   EnableReindex = FALSE
   InitOpen = {}
-  Outside = {"u1"}
+  Outside = {}
   CfgAddsLib = FALSE
+  RenameClears = TRUE
 INVARIANTS Emit
